@@ -136,7 +136,7 @@ theorem boundaryRuleB_of_prop (old new : List Chunk)
       have := h2 r hr
       simp only [Bool.not_eq_true', Bool.and_eq_false_iff, decide_eq_false_iff_not]
       by_cases h1 : r.time ≤ t
-      · right; intro h3; exact this ⟨h1, h3⟩
+      · right; intro h3; exact this ⟨h1, by omega⟩
       · left; exact h1
     simp [this]
 
